@@ -8,7 +8,7 @@ package main
 // (127.0.0.1 … 127.0.0.4 ⇒ max answer 1 … 4, UDP and TCP, one free port picked by listening first).
 // Query tokens:
 //   q.<name hex>.<qtype>.<qclass>.<maxAns>.<u|t>.<edns buffer, 0 = no OPT>
-//   z.<maxAns>.<u|t>.<qdcount>.<opcode>.<qr>          header-only packet built by hand
+//   z.<maxAns>.<u|t>.<qdcount>.<opcode>.<qr>          header-only packet (12 bytes) built by hand
 // Output per token (joined by `~`):
 //   q: net=<canon of the network reply>&bare=<canon of FBDNSDB.ServeDNS in process, same writer
 //      addresses / transport / OPT / max answer>&who=<pass | canon of whoami.Handler alone>&fit=<0|1>
@@ -75,9 +75,9 @@ func c20lines(g *gen) []string {
 }
 
 func c20gen(g *gen, tier string, w *bufio.Writer) {
-	n, nq := 16, 34
+	n, nq := 40, 36
 	if tier == "thorough" {
-		n, nq = 160, 70
+		n, nq = 400, 60
 	}
 	whos := []string{"", "whoami.ex.com", "WhoAmI.Ex.Com.", "one.ex.com", "who.other.org.", "big.ex.com"}
 	for i := 0; i < n; i++ {
@@ -86,7 +86,11 @@ func c20gen(g *gen, tier string, w *bufio.Writer) {
 		if i >= 2*len(whos) {
 			who, refuse = g.pick(whos), g.bool()
 		}
-		backend := g.pick([]string{"cdb", "cdb", "v2", "v1"})
+		// the chain does not depend on the storage; RocksDB compilation costs 1–2 s a line
+		backend := "cdb"
+		if g.chance(1, 7) {
+			backend = g.pick([]string{"v2", "v1"})
+		}
 		lines := c20lines(g)
 		names := []string{"ex.com.", "one.ex.com.", "four.ex.com.", "big.ex.com.", "huge.ex.com.", "alias.ex.com.",
 			"sub.ex.com.", "www.sub.ex.com.", "nx.ex.com.", "txt.ex.com.", "other.org.", ".", "x.wild.ex.com.", "v6.ex.com.",
@@ -101,22 +105,25 @@ func c20gen(g *gen, tier string, w *bufio.Writer) {
 			toks = append(toks, fmt.Sprintf("q.%s.%d.%d.%d.%s.%d", hexTok([]byte(name)), qt, qc, ma, proto, buf))
 		}
 		// fixed coverage: ANY, oversize over every transport variant, max answer 1…4, no-question packets
-		add(g.pick(names), dns.TypeANY, 1, 1+g.intn(4), "u", g.pick2(bufs))
+		add(g.pick(names), dns.TypeANY, 1, 1+g.intn(4), "u", c20pickInt(g, bufs))
 		add("big.ex.com.", dns.TypeANY, 1, 1+g.intn(4), "t", 0)
 		for _, b := range bufs {
 			add(g.pick([]string{"big.ex.com.", "huge.ex.com."}), dns.TypeTXT, 1, 1+g.intn(4), "u", b)
 		}
-		add("huge.ex.com.", dns.TypeTXT, 1, 1+g.intn(4), "t", g.pick2(bufs))
+		add("huge.ex.com.", dns.TypeTXT, 1, 1+g.intn(4), "t", c20pickInt(g, bufs))
 		for ma := 1; ma <= 4; ma++ {
-			add("four.ex.com.", dns.TypeA, 1, ma, g.pick([]string{"u", "t"}), g.pick2(bufs))
+			add("four.ex.com.", dns.TypeA, 1, ma, g.pick([]string{"u", "t"}), c20pickInt(g, bufs))
 		}
 		if who != "" {
 			d := strings.ToLower(dns.Fqdn(who))
-			add(d, dns.TypeTXT, 1, 1+g.intn(4), "u", g.pick2(bufs))
-			add(flipCase(d, g), dns.TypeTXT, 1, 1+g.intn(4), "t", g.pick2(bufs))
+			add(d, dns.TypeTXT, 1, 1+g.intn(4), "u", c20pickInt(g, bufs))
+			add(flipCase(d, g), dns.TypeTXT, 1, 1+g.intn(4), "t", c20pickInt(g, bufs))
 			add(d, dns.TypeANY, 1, 1+g.intn(4), "u", 0)
 		}
 		toks = append(toks, fmt.Sprintf("z.%d.u.0.0.0", 1+g.intn(4)), fmt.Sprintf("z.%d.t.0.0.0", 1+g.intn(4)))
+		// QDCOUNT = 1 but the packet ends after the header: miekg unpacks it as a message without
+		// question and hands it to the handler (the serveMux guard)
+		toks = append(toks, fmt.Sprintf("z.%d.%s.1.0.0", 1+g.intn(4), g.pick([]string{"u", "t"})))
 		if g.chance(1, 3) {
 			toks = append(toks, fmt.Sprintf("z.%d.%s.%d.%d.%d", 1+g.intn(4), g.pick([]string{"u", "t"}),
 				[]int{0, 2, 0, 1}[g.intn(4)], []int{0, 4, 5, 2}[g.intn(4)], []int{0, 0, 0, 1}[g.intn(4)]))
@@ -127,7 +134,7 @@ func c20gen(g *gen, tier string, w *bufio.Writer) {
 			if g.chance(1, 12) {
 				qc = []uint16{3, 255}[g.intn(2)]
 			}
-			add(g.pick(names), qt, qc, 1+g.intn(4), g.pick([]string{"u", "u", "t"}), g.pick2(bufs))
+			add(g.pick(names), qt, qc, 1+g.intn(4), g.pick([]string{"u", "u", "t"}), c20pickInt(g, bufs))
 		}
 		g.shuffle(toks)
 		var ls []string
@@ -142,7 +149,7 @@ func c20gen(g *gen, tier string, w *bufio.Writer) {
 	}
 }
 
-func (g *gen) pick2(xs []int) int { return xs[g.intn(len(xs))] }
+func c20pickInt(g *gen, xs []int) int { return xs[g.intn(len(xs))] }
 
 // ---- canonical rendering -----------------------------------------------------------------------
 
@@ -630,7 +637,7 @@ func c20run(line string) (string, string) {
 			addr := net.JoinHostPort(c20ips[ma-1], strconv.Itoa(port))
 			zs := "noreply"
 			if conn, err := c20dial(proto, addr); err == nil {
-				raw := c20exchange(conn, proto, hdr, 400*time.Millisecond)
+				raw := c20exchange(conn, proto, hdr, 250*time.Millisecond)
 				conn.Close()
 				if raw != nil {
 					m := new(dns.Msg)
@@ -638,7 +645,7 @@ func c20run(line string) (string, string) {
 						zs = "unpackerr"
 					} else {
 						zs = c20canon(m, id, nil, false)
-						if qd == 0 && m.Rcode != dns.RcodeFormatError && m.Rcode != dns.RcodeServerFailure && m.Rcode != dns.RcodeNotImplemented {
+						if qr == 0 && m.Rcode != dns.RcodeFormatError && m.Rcode != dns.RcodeServerFailure && m.Rcode != dns.RcodeNotImplemented {
 							fail(i, "no-question-not-a-failure")
 						}
 					}
